@@ -258,6 +258,13 @@ func (m *BaseUndoLogManager) Undo(ctx context.Context, dbType types.DBType, xid 
 	if err != nil {
 		return err
 	}
+	// the connection goes back to the pool whatever happens (runs after the transaction has been ended)
+	defer func() {
+		if closeErr := conn.Close(); closeErr != nil {
+			log.Errorf("conn close fail, xid: %s, branchID:%v err:%v", xid, branchID, closeErr)
+		}
+	}()
+
 	tx, err := conn.BeginTx(ctx, &sql.TxOptions{})
 	if err != nil {
 		return err
